@@ -12,6 +12,9 @@ package main
 //           unreadable / normal files
 //   multi   several files in one command (one unparseable, one already formatted, size limit): every file
 //           as if rewritten alone
+//   flags   every boolean flag `knut format --help` / `knut infer --help` offers (known or not; read with C08's help reader),
+//           alone, with the known in-place flag and in pairs, under size limits, failing system calls and kills: the
+//           target is the complete old or the complete new file, bystanders as before, no stray or partial file
 //   facts   the three call sites write only through atomic.WriteFile on a complete buffer; the operation
 //           sequence of the pinned atomic.WriteFile is the model's
 // Every case also evaluates the Lean predicate `allOrNothing` (and `sameNames`) on what the real run left behind.
@@ -1604,6 +1607,263 @@ func (c *Ctx) c18ByMonitor(stream string, idx int, in map[string]any) {
 	}
 }
 
+// ---------------------------------------------------------------- flags stream (command surface under faults)
+
+// c18Flags: the fault streams above run `knut format FILE` and `knut infer -i -t T FILE` and nothing else; a flag a rewriting
+// command gains later (a backup, a "keep going", a "force", a "no-sync" switch) is outside their vectors. This stream does not
+// know the flags in advance: it reads the boolean flags `knut format --help` / `knut infer --help` offer (the reader of C08's
+// `flags` streams: c08Exec, c08ParseHelp) and runs every rewriting command with the known vector, without the known in-place
+// flag, with every additional boolean flag alone and together with the known in-place flag, and with pairs of additional
+// flags - each under the faults of `limit` (RLIMIT_FSIZE = k bytes) and `inject` (the n-th write/fsync/renameat/openat/...
+// fails, or the process is killed there). Nothing is assumed about what a flag means; the directory is judged by the
+// property's own predicates:
+//   - allOrNothing: the target is its complete old contents or the complete new contents - the bytes the SAME command line
+//     leaves without a fault on a private copy; "must be old" when that command line is rejected. Status known (error => old,
+//     ok => new) only for the reviewed in-place vector, unknown otherwise (a flag may suppress the writing);
+//   - C18_others_untouched: the training file and every bystander (c18Exec) as before;
+//   - no stray or partial file: a name that was not there before may only be a file named after the target holding the
+//     complete old or the complete new contents (what a flag is documented to create: <target>~, <target>.bak); a cut temp
+//     file, a half-written backup or anything else is reported. Not evaluated for a killed run (its temp file may stay).
+type c18FlagVec struct {
+	Cmd    string
+	Names  []string // long names of the boolean flags given
+	Args   []string // their spelling on the command line
+	Review bool     // the reviewed in-place vector: status of the run is meaningful
+}
+
+func (v c18FlagVec) argv(target string) []string {
+	a := append([]string{v.Cmd}, v.Args...)
+	if v.Cmd == "infer" {
+		a = append(a, "-t", "training.knut")
+	}
+	return append(a, target)
+}
+
+// c18FlagVectors reads the boolean flags of the command and returns the flag vectors to explore.
+func (c *Ctx) c18FlagVectors(cmd, inplace string) []c18FlagVec {
+	var status int
+	var out, errOut string
+	for try := 0; try < 3 && (try == 0 || status != 0); try++ {
+		status, out, errOut = c08Exec(c.KnutBin, "", []string{cmd, "--help"})
+	}
+	if !c.Monitor("flags", -1, "`knut "+cmd+" --help` prints the flags", map[string]any{"command": cmd}, status == 0, clip(errOut)) {
+		return nil
+	}
+	var extra []c08HelpFlag
+	var inpl *c08HelpFlag
+	for _, f := range c08ParseHelp(out) {
+		f := f
+		switch {
+		case f.Name == "help" || !f.isBool():
+		case f.Name == inplace:
+			inpl = &f
+		default:
+			extra = append(extra, f)
+			c.Tag("flags/additional-boolean-flag:" + cmd + " --" + f.Name)
+		}
+	}
+	r := c.Rng("flags-spelling", len(cmd))
+	spell := func(f c08HelpFlag) string {
+		if f.Short != "" && r.Chance(1, 2) {
+			return "-" + f.Short
+		}
+		return "--" + f.Name
+	}
+	mk := func(review bool, fs ...c08HelpFlag) c18FlagVec {
+		v := c18FlagVec{Cmd: cmd, Review: review}
+		for _, f := range fs {
+			v.Names = append(v.Names, f.Name)
+			v.Args = append(v.Args, spell(f))
+		}
+		// the order on the command line must not matter
+		if len(v.Args) > 1 && r.Chance(1, 2) {
+			v.Args[0], v.Args[len(v.Args)-1] = v.Args[len(v.Args)-1], v.Args[0]
+		}
+		return v
+	}
+	var vs []c18FlagVec
+	if inpl != nil {
+		vs = append(vs, mk(true, *inpl), mk(false))
+	} else {
+		vs = append(vs, mk(inplace == ""))
+	}
+	const maxExtra = 6
+	if len(extra) > maxExtra {
+		c.Notes = append(c.Notes, fmt.Sprintf("flags: `knut %s` offers %d additional boolean flags, the first %d are explored", cmd, len(extra), maxExtra))
+		extra = extra[:maxExtra]
+	}
+	for _, f := range extra {
+		if inpl != nil {
+			vs = append(vs, mk(false, *inpl, f))
+		}
+		vs = append(vs, mk(false, f))
+	}
+	for a := 0; a < len(extra); a++ {
+		for b := a + 1; b < len(extra); b++ {
+			if inpl != nil {
+				vs = append(vs, mk(false, *inpl, extra[a], extra[b]))
+			} else {
+				vs = append(vs, mk(false, extra[a], extra[b]))
+			}
+		}
+	}
+	return vs
+}
+
+type c18FlagFault struct {
+	What   string
+	Limit  int
+	Strace []string
+	Killed bool
+}
+
+func (c *Ctx) c18Flags() {
+	nfiles := c.N(2, 8)
+	nlimits := c.N(8, 40)
+	scratch := filepath.Join(c.WorkDir, "render")
+	dir := filepath.Join(c.WorkDir, "flags")
+	bt := c.NewBatch()
+	defer bt.Flush()
+	idx := 0
+	for _, cs := range [][2]string{{"format", ""}, {"infer", "inplace"}} {
+		cmd := cs[0]
+		vecs := c.c18FlagVectors(cmd, cs[1])
+		var surface []string
+		for _, v := range vecs {
+			surface = append(surface, "["+strings.Join(v.Args, " ")+"]")
+		}
+		c.Extra["flags_vectors_"+cmd] = strings.Join(surface, " ")
+		for vi, v := range vecs {
+			for fi := 0; fi < nfiles; fi++ {
+				r := c.Rng("flags", (len(cmd)*1000+vi)*100+fi)
+				kind := []string{"plain", "big", "formatted", "plain", "no-final-newline", "big", "plain", "empty"}[fi%8]
+				name := Pick(r, []string{"journal.knut", "ledger.knut", "target.knut", "j.knut", "2024.knut"})
+				extraFiles := map[string][]byte{}
+				var f c18File
+				if cmd == "infer" {
+					if kind == "formatted" || kind == "no-final-newline" {
+						kind = "plain"
+					}
+					f = c18File{Name: name, Old: []byte(c18InferTarget(r, kind)), Mode: Pick(r, []os.FileMode{0o644, 0o600, 0o640}), Kind: "infer-" + kind}
+					extraFiles["training.knut"] = []byte(c18Training)
+				} else {
+					f = c.c18GenFile(r, scratch, name, kind)
+				}
+				// the complete new contents: what this very command line leaves without a fault (nil: it is rejected)
+				f.New = c.c18Render(scratch, v.argv, f.Name, f.Old, extraFiles)
+				files := map[string][]byte{f.Name: f.Old}
+				modes := map[string]os.FileMode{f.Name: f.Mode}
+				others := map[string]string{}
+				for n, b := range extraFiles {
+					files[n], modes[n] = b, 0o644
+					others[n] = fieldOf(b, 0o644)
+				}
+				argv := v.argv(f.Name)
+				// faults: size limits around the interesting lengths, failing system calls, a kill in the middle
+				var faults []c18FlagFault
+				size := len(f.New)
+				if f.New == nil {
+					size = len(f.Old)
+				}
+				ks := map[int]bool{0: true, 1: true, size - 1: true, size: true, len(f.Old) - 1: true, size / 2: true}
+				for len(ks) < nlimits+1 && size > nlimits {
+					ks[r.Intn(size+2)] = true
+				}
+				var kl []int
+				for k := range ks {
+					if k >= 0 {
+						kl = append(kl, k)
+					}
+				}
+				sort.Ints(kl)
+				for _, k := range kl {
+					faults = append(faults, c18FlagFault{What: "limit", Limit: k})
+				}
+				errnos := []string{"EIO", "ENOSPC", "EACCES", "EDQUOT"}
+				for _, sys := range []string{"write", "fsync", "renameat", "fchmodat"} {
+					for n := 1; n <= 2; n++ {
+						faults = append(faults, c18FlagFault{What: sys, Limit: -1, Strace: []string{"-e", "trace=" + sys, "-e", fmt.Sprintf("inject=%s:error=%s:when=%d", sys, Pick(r, errnos), n)}})
+					}
+				}
+				for _, n := range []int{r.Range(1, 4), r.Range(5, 9), r.Range(10, 16)} {
+					faults = append(faults, c18FlagFault{What: "openat", Limit: -1, Strace: []string{"-e", "trace=openat", "-e", fmt.Sprintf("inject=openat:error=%s:when=%d", Pick(r, errnos), n)}})
+				}
+				faults = append(faults, c18FlagFault{What: "close", Limit: -1, Strace: []string{"-e", "trace=close", "-e", fmt.Sprintf("inject=close:error=EIO:when=%d", r.Range(1, 8))}})
+				for _, sys := range []string{"write", "fsync", "renameat", "fchmodat"} {
+					faults = append(faults, c18FlagFault{What: "kill-" + sys, Limit: -1, Killed: true, Strace: []string{"-e", "trace=" + sys, "-e", fmt.Sprintf("inject=%s:signal=KILL:when=%d", sys, 1)}})
+				}
+				for _, ft := range faults {
+					i := idx
+					idx++
+					if !c.Want("flags", i) {
+						continue
+					}
+					rn := c18Run{Dir: dir, Files: files, Modes: modes, Argv: argv, Limit: ft.Limit, Strace: ft.Strace}
+					pr := c.c18Exec(rn)
+					c.Evals++
+					in := map[string]any{"argv": argv, "flags": v.Names, "fault": ft.What, "file_kind": f.Kind, "mode": fmt.Sprintf("%o", f.Mode), "old": string(f.Old),
+						"new_len": len(f.New), "accepted_without_fault": f.New != nil}
+					if ft.Limit >= 0 {
+						in["RLIMIT_FSIZE"] = ft.Limit
+					}
+					if len(ft.Strace) > 0 {
+						in["strace"] = ft.Strace
+					}
+					c.c18ByMonitor("flags", i, in)
+					c.Class(fmt.Sprintf("flags/%s/[%s]/%s/%s/exit%v", cmd, strings.Join(v.Names, ","), ft.What, f.Kind, pr.Exit == 0))
+					if i < 2 {
+						c.Sample(map[string]any{"stream": "flags", "argv": argv, "fault": ft.What, "RLIMIT_FSIZE": ft.Limit, "exit": pr.Exit, "stderr": clip(pr.Stderr)})
+					}
+					if !c.Monitor("flags", i, "terminates", in, !pr.Timeout, "timeout") {
+						continue
+					}
+					if !ft.Killed {
+						c.Monitor("flags", i, "no panic", in, !strings.Contains(pr.Stderr, "panic:") && !strings.Contains(pr.Stderr, "goroutine "), clip(pr.Stderr))
+					}
+					old, nw := fieldOf(f.Old, f.Mode), newField(f.New)
+					observed := fileField(filepath.Join(dir, f.Name))
+					status := "-"
+					if v.Review && !ft.Killed {
+						status = map[bool]string{true: "1", false: "0"}[pr.Exit == 0]
+					}
+					exit, stderr := pr.Exit, pr.Stderr
+					bt.Add(func(mon string) {
+						c.Monitor("flags", i, "C18 allOrNothing (whatever the flags: the target is the complete old file or the complete new file, never missing, never partial)", in, mon == "ok",
+							fmt.Sprintf("%s: exit=%d old=%s new=%s observed=%s stderr=%s", mon, exit, clip(old), clip(nw), clip(observed), clip(stderr)))
+					}, "c18mon", old, nw, observed, status)
+					for n, want := range others {
+						got := fileField(filepath.Join(dir, n))
+						c.Monitor("flags", i, "C18_others_untouched", in, got == want, fmt.Sprintf("%s: %s vs %s", n, clip(got), clip(want)))
+					}
+					if ft.Killed {
+						continue
+					}
+					// names that were not there before
+					var bad []string
+					ents, _ := os.ReadDir(dir)
+					for _, e := range ents {
+						if _, ok := files[e.Name()]; ok {
+							continue
+						}
+						b, err := os.ReadFile(filepath.Join(dir, e.Name()))
+						switch {
+						case err != nil || !e.Type().IsRegular():
+							bad = append(bad, e.Name()+" (not a readable regular file)")
+						case !strings.Contains(e.Name(), f.Name):
+							bad = append(bad, fmt.Sprintf("%s (%d bytes, not named after the target)", e.Name(), len(b)))
+						case string(b) != string(f.Old) && (f.New == nil || string(b) != string(f.New)):
+							bad = append(bad, fmt.Sprintf("%s (%d bytes: neither the complete old nor the complete new contents)", e.Name(), len(b)))
+						default:
+							c.Tag("flags/file-created-next-to-target")
+						}
+					}
+					c.Monitor("flags", i, "no stray or partial file (a new name may only be a complete copy named after the target)", in, len(bad) == 0, strings.Join(bad, "; "))
+				}
+			}
+		}
+	}
+}
+
 // ---------------------------------------------------------------- facts stream
 
 var reAtomicVersion = regexp.MustCompile(`github.com/natefinch/atomic (v[0-9.]+)`)
@@ -1715,7 +1975,7 @@ func runC18(c *Ctx) {
 	streams := []struct {
 		name string
 		f    func()
-	}{{"facts", c.c18Facts}, {"limit", c.c18Limit}, {"inject", c.c18InjectStream}, {"perm", c.c18Perm}, {"permlimit", c.c18PermLimit}, {"multi", c.c18Multi}, {"siblings", c.c18Siblings}, {"sizes", c.c18Sizes}}
+	}{{"facts", c.c18Facts}, {"limit", c.c18Limit}, {"inject", c.c18InjectStream}, {"perm", c.c18Perm}, {"permlimit", c.c18PermLimit}, {"multi", c.c18Multi}, {"siblings", c.c18Siblings}, {"sizes", c.c18Sizes}, {"flags", c.c18Flags}}
 	for _, s := range streams {
 		if c.Replay && c.OnlyStr != s.name && !(s.name == "limit" && c.OnlyStr == "limit-directed") && !(s.name == "multi" && c.OnlyStr == "multi-directed") {
 			continue
